@@ -1,0 +1,274 @@
+//go:build verif
+
+package serializer
+
+// Contracts for the Serializer primitives (writer half of properties C01 and C03), read by the
+// verification machinery in /verif. Comment-only file.
+//
+// The Serializer's bytes.Buffer is modelled as a write-only byte log (ghost fields data[0..n) of the
+// buffer, assumed contracts of bytes.Buffer.Write/WriteByte/Len/Bytes and encoding/binary.Write in
+// /verif/contracts/trusted). Every writer states the documented wire layout of what it appends with the
+// same spec functions (le16/le32/le64, lenprefix) the Deserializer contracts use for what they read, so
+// that reading back what was written returns the written value: the round-trip clauses are the lemmas
+// at the end of this file. Bytes already written never change, and nothing is written once an error is
+// recorded.
+
+/*@
+func NewSerializer
+  ensures r0 != nil && fresh(r0) && r0.err == nil && r0.buf.n == 0
+
+func Serializer.Written
+  requires s != nil
+  ensures r0 == s.buf.n
+
+func Serializer.Serialize
+  requires s != nil
+  ensures s.err != nil ==> r1 == s.err && len(r0) == 0
+  ensures s.err == nil ==> r1 == nil && len(r0) == s.buf.n && forall i Int :: 0 <= i && i < s.buf.n ==> r0[i] == sel(s.buf.data, i)
+
+func Serializer.WriteByte
+  requires s != nil
+  callback errProducer(e) (r)
+    ensures e != nil ==> r != nil          -- error producers wrap the error they are given
+  modifies s.buf, s.buf.data, s.buf.n, s.err
+  ensures r0 == s
+  ensures old(s.err) != nil ==> s.err == old(s.err) && s.buf.n == old(s.buf.n) && s.buf.data == old(s.buf.data)
+  ensures old(s.err) == nil ==> s.err == nil && s.buf.n == old(s.buf.n) + 1 && s.buf.data == upd(old(s.buf.data), old(s.buf.n), data)
+
+func Serializer.WriteBool
+  requires s != nil
+  callback errProducer(e) (r)
+    ensures e != nil ==> r != nil          -- error producers wrap the error they are given
+  modifies s.buf, s.buf.data, s.buf.n, s.err
+  ensures r0 == s
+  ensures old(s.err) != nil ==> s.err == old(s.err) && s.buf.n == old(s.buf.n) && s.buf.data == old(s.buf.data)
+  ensures old(s.err) == nil ==> s.err == nil && s.buf.n == old(s.buf.n) + 1 && s.buf.data == upd(old(s.buf.data), old(s.buf.n), v ? 1 : 0)
+func Serializer.WriteBytes
+  requires s != nil
+  callback errProducer(e) (r)
+    ensures e != nil ==> r != nil          -- error producers wrap the error they are given
+  modifies s.buf, s.buf.data, s.buf.n, s.err
+  ensures r0 == s
+  ensures old(s.err) != nil ==> s.err == old(s.err) && s.buf.n == old(s.buf.n) && s.buf.data == old(s.buf.data)
+  ensures old(s.err) == nil ==> s.err == nil && s.buf.n == old(s.buf.n) + len(data)
+  ensures forall i Int :: i < old(s.buf.n) ==> sel(s.buf.data, i) == sel(old(s.buf.data), i)
+  ensures old(s.err) == nil ==> forall i Int :: 0 <= i && i < len(data) ==> sel(s.buf.data, old(s.buf.n) + i) == data[i]
+
+-- the collection length l as a prefix of the configured width, little-endian; lengths that do not fit
+-- the width are rejected (nothing written)
+func Serializer.writeSliceLength
+  requires s != nil && l >= 0
+  callback errProducer(e) (r)
+    ensures e != nil ==> r != nil          -- error producers wrap the error they are given
+  panics-iff s.err == nil && lenType != SeriLengthPrefixTypeAsByte && lenType != SeriLengthPrefixTypeAsUint16 && lenType != SeriLengthPrefixTypeAsUint32
+  modifies s.buf, s.buf.data, s.buf.n, s.err
+  ensures old(s.err) != nil ==> s.err == old(s.err) && s.buf.n == old(s.buf.n) && s.buf.data == old(s.buf.data)
+  ensures forall i Int :: i < old(s.buf.n) ==> sel(s.buf.data, i) == sel(old(s.buf.data), i)
+  ensures old(s.err) == nil ==> (s.err == nil <==> l <= (lenType == SeriLengthPrefixTypeAsByte ? 255 : (lenType == SeriLengthPrefixTypeAsUint16 ? 65535 : 4294967295)))
+  ensures s.err != nil ==> s.buf.n == old(s.buf.n)
+  ensures old(s.err) == nil && s.err == nil ==> s.buf.n == old(s.buf.n) + (lenType == SeriLengthPrefixTypeAsByte ? 1 : (lenType == SeriLengthPrefixTypeAsUint16 ? 2 : 4)) && lenprefix(s.buf.data, old(s.buf.n), lenType) == l
+  ensures forall i Int :: old(s.buf.n) <= i && i < s.buf.n ==> 0 <= sel(s.buf.data, i) && sel(s.buf.data, i) <= 255
+
+func Serializer.WriteVariableByteSlice
+  requires s != nil
+  callback errProducer(e) (r)
+    ensures e != nil ==> r != nil          -- error producers wrap the error they are given
+  panics-iff s.err == nil && !(maxLen > 0 && len(data) > maxLen) && !(minLen > 0 && len(data) < minLen) && lenType != SeriLengthPrefixTypeAsByte && lenType != SeriLengthPrefixTypeAsUint16 && lenType != SeriLengthPrefixTypeAsUint32
+  modifies s.buf, s.buf.data, s.buf.n, s.err
+  ensures r0 == s
+  ensures old(s.err) != nil ==> s.err == old(s.err) && s.buf.n == old(s.buf.n) && s.buf.data == old(s.buf.data)
+  ensures forall i Int :: i < old(s.buf.n) ==> sel(s.buf.data, i) == sel(old(s.buf.data), i)
+  -- bounds violated: nothing written (the error producer decides what is recorded)
+  ensures old(s.err) == nil && ((maxLen > 0 && len(data) > maxLen) || (minLen > 0 && len(data) < minLen)) ==> s.buf.n == old(s.buf.n)
+  -- written: prefix of the configured width holding len(data), then the bytes
+  ensures s.buf.n != old(s.buf.n) ==> old(s.err) == nil && s.err == nil && lenprefix(s.buf.data, old(s.buf.n), lenType) == len(data)
+  ensures s.buf.n != old(s.buf.n) ==> s.buf.n == old(s.buf.n) + (lenType == SeriLengthPrefixTypeAsByte ? 1 : (lenType == SeriLengthPrefixTypeAsUint16 ? 2 : 4)) + len(data)
+  ensures s.buf.n != old(s.buf.n) ==> forall i Int :: 0 <= i && i < len(data) ==> sel(s.buf.data, s.buf.n - len(data) + i) == data[i]
+  ensures old(s.err) == nil && !(maxLen > 0 && len(data) > maxLen) && !(minLen > 0 && len(data) < minLen) && len(data) <= (lenType == SeriLengthPrefixTypeAsByte ? 255 : (lenType == SeriLengthPrefixTypeAsUint16 ? 65535 : 4294967295)) ==> s.err == nil && s.buf.n != old(s.buf.n)
+  -- a rejected length is reported
+  ensures old(s.err) == nil && ((maxLen > 0 && len(data) > maxLen) || (minLen > 0 && len(data) < minLen) || len(data) > (lenType == SeriLengthPrefixTypeAsByte ? 255 : (lenType == SeriLengthPrefixTypeAsUint16 ? 65535 : 4294967295))) ==> s.err != nil && s.buf.n == old(s.buf.n)
+
+func Serializer.WriteString
+  requires s != nil
+  callback errProducer(e) (r)
+    ensures e != nil ==> r != nil          -- error producers wrap the error they are given
+  panics-iff s.err == nil && !(maxLen > 0 && len(str) > maxLen) && !(minLen > 0 && len(str) < minLen) && lenType != SeriLengthPrefixTypeAsByte && lenType != SeriLengthPrefixTypeAsUint16 && lenType != SeriLengthPrefixTypeAsUint32
+  modifies s.buf, s.buf.data, s.buf.n, s.err
+  ensures r0 == s
+  ensures old(s.err) != nil ==> s.err == old(s.err) && s.buf.n == old(s.buf.n) && s.buf.data == old(s.buf.data)
+  ensures forall i Int :: i < old(s.buf.n) ==> sel(s.buf.data, i) == sel(old(s.buf.data), i)
+  ensures old(s.err) == nil && ((maxLen > 0 && len(str) > maxLen) || (minLen > 0 && len(str) < minLen)) ==> s.buf.n == old(s.buf.n)
+  ensures s.buf.n != old(s.buf.n) ==> old(s.err) == nil && s.err == nil && lenprefix(s.buf.data, old(s.buf.n), lenType) == len(str)
+  ensures s.buf.n != old(s.buf.n) ==> s.buf.n == old(s.buf.n) + (lenType == SeriLengthPrefixTypeAsByte ? 1 : (lenType == SeriLengthPrefixTypeAsUint16 ? 2 : 4)) + len(str)
+  ensures old(s.err) == nil && !(maxLen > 0 && len(str) > maxLen) && !(minLen > 0 && len(str) < minLen) && len(str) <= (lenType == SeriLengthPrefixTypeAsByte ? 255 : (lenType == SeriLengthPrefixTypeAsUint16 ? 65535 : 4294967295)) ==> s.err == nil && s.buf.n != old(s.buf.n)
+  -- a rejected length is reported
+  ensures old(s.err) == nil && ((maxLen > 0 && len(str) > maxLen) || (minLen > 0 && len(str) < minLen) || len(str) > (lenType == SeriLengthPrefixTypeAsByte ? 255 : (lenType == SeriLengthPrefixTypeAsUint16 ? 65535 : 4294967295))) ==> s.err != nil && s.buf.n == old(s.buf.n)
+
+-- payload length marker: uint32 little-endian
+func Serializer.writePayloadLength
+  requires s != nil && 0 <= length && length <= 4294967295
+  modifies s.buf, s.buf.data, s.buf.n
+  ensures r0 == nil && s.buf.n == old(s.buf.n) + 4 && le32(s.buf.data, old(s.buf.n)) == length
+  ensures forall i Int :: i < old(s.buf.n) ==> sel(s.buf.data, i) == sel(old(s.buf.data), i)
+
+func Serializer.WritePayloadLength
+  requires s != nil && 0 <= length && length <= 4294967295
+  callback errProducer(e) (r)
+    ensures e != nil ==> r != nil          -- error producers wrap the error they are given
+  modifies s.buf, s.buf.data, s.buf.n, s.err
+  ensures r0 == s
+  ensures old(s.err) != nil ==> s.err == old(s.err) && s.buf.n == old(s.buf.n) && s.buf.data == old(s.buf.data)
+  ensures old(s.err) == nil ==> s.err == nil && s.buf.n == old(s.buf.n) + 4 && le32(s.buf.data, old(s.buf.n)) == length
+  ensures forall i Int :: i < old(s.buf.n) ==> sel(s.buf.data, i) == sel(old(s.buf.data), i)
+
+-- nanoseconds since the epoch, saturated to [0, MaxInt64]
+func TimeToUint64
+  ensures 0 <= r0 && r0 <= MaxInt64
+
+func Serializer.WriteTime
+  requires s != nil
+  callback errProducer(e) (r)
+    ensures e != nil ==> r != nil          -- error producers wrap the error they are given
+  modifies s.buf, s.buf.data, s.buf.n, s.err
+  ensures r0 == s
+  ensures old(s.err) != nil ==> s.err == old(s.err) && s.buf.n == old(s.buf.n) && s.buf.data == old(s.buf.data)
+  ensures old(s.err) == nil ==> s.err == nil && s.buf.n == old(s.buf.n) + 8 && 0 <= le64(s.buf.data, old(s.buf.n)) && le64(s.buf.data, old(s.buf.n)) <= MaxInt64
+  ensures forall i Int :: i < old(s.buf.n) ==> sel(s.buf.data, i) == sel(old(s.buf.data), i)
+
+-- fixed-width numbers little-endian (two's complement for the signed kinds)
+func Serializer.WriteNum
+  requires s != nil
+  callback errProducer(e) (r)
+    ensures e != nil ==> r != nil          -- error producers wrap the error they are given
+  modifies s.buf, s.buf.data, s.buf.n, s.err
+  ensures r0 == s
+  ensures old(s.err) != nil ==> s.err == old(s.err) && s.buf.n == old(s.buf.n) && s.buf.data == old(s.buf.data)
+  ensures forall i Int :: i < old(s.buf.n) ==> sel(s.buf.data, i) == sel(old(s.buf.data), i)
+  ensures old(s.err) == nil && typeof(v) == typeid(uint8) ==> s.err == nil && s.buf.n == old(s.buf.n) + 1 && sel(s.buf.data, old(s.buf.n)) == unbox(uint8, v)
+  ensures old(s.err) == nil && typeof(v) == typeid(uint16) ==> s.err == nil && s.buf.n == old(s.buf.n) + 2 && le16(s.buf.data, old(s.buf.n)) == unbox(uint16, v)
+  ensures old(s.err) == nil && typeof(v) == typeid(uint32) ==> s.err == nil && s.buf.n == old(s.buf.n) + 4 && le32(s.buf.data, old(s.buf.n)) == unbox(uint32, v)
+  ensures old(s.err) == nil && typeof(v) == typeid(uint64) ==> s.err == nil && s.buf.n == old(s.buf.n) + 8 && le64(s.buf.data, old(s.buf.n)) == unbox(uint64, v)
+  ensures old(s.err) == nil && typeof(v) == typeid(int8) ==> s.err == nil && s.buf.n == old(s.buf.n) + 1 && sel(s.buf.data, old(s.buf.n)) == (unbox(int8, v) < 0 ? unbox(int8, v) + 256 : unbox(int8, v))
+  ensures old(s.err) == nil && typeof(v) == typeid(int16) ==> s.err == nil && s.buf.n == old(s.buf.n) + 2 && le16(s.buf.data, old(s.buf.n)) == (unbox(int16, v) < 0 ? unbox(int16, v) + 65536 : unbox(int16, v))
+  ensures old(s.err) == nil && typeof(v) == typeid(int32) ==> s.err == nil && s.buf.n == old(s.buf.n) + 4 && le32(s.buf.data, old(s.buf.n)) == (unbox(int32, v) < 0 ? unbox(int32, v) + 4294967296 : unbox(int32, v))
+  ensures old(s.err) == nil && typeof(v) == typeid(int64) ==> s.err == nil && s.buf.n == old(s.buf.n) + 8 && le64(s.buf.data, old(s.buf.n)) == (unbox(int64, v) < 0 ? unbox(int64, v) + 18446744073709551616 : unbox(int64, v))
+  ensures forall i Int :: old(s.buf.n) <= i && i < s.buf.n ==> 0 <= sel(s.buf.data, i) && sel(s.buf.data, i) <= 255
+
+func Serializer.AbortIf
+  requires s != nil
+  callback errProducer(e) (r)
+    ensures e != nil ==> r != nil          -- error producers wrap the error they are given
+  modifies s.err
+  ensures r0 == s && (old(s.err) != nil ==> s.err == old(s.err))
+
+func Serializer.WithValidation
+  requires s != nil
+  callback errProducer(written, e) (r)
+  modifies s.err
+  ensures r0 == s && (old(s.err) != nil ==> s.err == old(s.err))
+  ensures bitand(deSeriMode, DeSeriModePerformValidation) == 0 ==> s.err == old(s.err)
+
+-- objects serialize themselves; what they return is appended verbatim
+func Serializable.Serialize(recv, deSeriMode, deSeriCtx) (b, err)
+  ensures len(b) <= 4294967295            -- assumed: no object serializes to 4 GiB or more
+
+func Serializer.WriteObject
+  requires s != nil && seri != nil
+  callback errProducer(e) (r)
+    ensures e != nil ==> r != nil
+  callback guard(x) (gerr)
+  modifies s.buf, s.buf.data, s.buf.n, s.err
+  ensures r0 == s && s.buf.n >= old(s.buf.n)
+  ensures old(s.err) != nil ==> s.err == old(s.err) && s.buf.n == old(s.buf.n) && s.buf.data == old(s.buf.data)
+  ensures forall i Int :: i < old(s.buf.n) ==> sel(s.buf.data, i) == sel(old(s.buf.data), i)
+  ensures s.err != nil ==> s.buf.n == old(s.buf.n)
+
+-- payload: uint32 little-endian length marker, then exactly that many bytes (0 for no payload)
+func Serializer.WritePayload
+  requires s != nil
+  callback errProducer(e) (r)
+    ensures e != nil ==> r != nil
+  callback guard(x) (gerr)
+  modifies s.buf, s.buf.data, s.buf.n, s.err
+  ensures r0 == s && s.buf.n >= old(s.buf.n)
+  ensures old(s.err) != nil ==> s.err == old(s.err) && s.buf.n == old(s.buf.n) && s.buf.data == old(s.buf.data)
+  ensures forall i Int :: i < old(s.buf.n) ==> sel(s.buf.data, i) == sel(old(s.buf.data), i)
+  ensures s.err != nil ==> s.buf.n == old(s.buf.n)
+  ensures s.buf.n != old(s.buf.n) ==> s.buf.n >= old(s.buf.n) + 4 && le32(s.buf.data, old(s.buf.n)) == s.buf.n - old(s.buf.n) - 4
+  ensures old(s.err) == nil && payload == nil ==> s.err == nil && s.buf.n == old(s.buf.n) + 4
+
+func Serializer.Do
+  requires s != nil
+  callback f()
+    modifies everything
+  modifies everything
+  ensures r0 == s
+
+@*/
+
+/*@
+func verifWrapErr
+  ensures r0 == err
+
+func verifRoundTripUint32
+  modifies cells(int64), cells(float64)
+  ensures r2 == nil && r0 == v && r1 == 4
+
+func verifRoundTripUint8
+  modifies cells(int64), cells(float64)
+  ensures r2 == nil && r0 == v && r1 == 1
+
+func verifRoundTripUint16
+  modifies cells(int64), cells(float64)
+  ensures r2 == nil && r0 == v && r1 == 2
+
+func verifRoundTripUint64
+  modifies cells(int64), cells(float64)
+  ensures r2 == nil && r0 == v && r1 == 8
+
+func verifRoundTripInt8
+  modifies cells(int64), cells(float64)
+  ensures r2 == nil && r0 == v && r1 == 1
+
+func verifRoundTripInt16
+  modifies cells(int64), cells(float64)
+  ensures r2 == nil && r0 == v && r1 == 2
+
+func verifRoundTripInt32
+  modifies cells(int64), cells(float64)
+  ensures r2 == nil && r0 == v && r1 == 4
+
+func verifRoundTripInt64
+  modifies cells(int64), cells(float64)
+  ensures r2 == nil && r0 == v && r1 == 8
+
+func verifRoundTripBool
+  modifies cells(bool)
+  ensures r2 == nil && (r0 <==> v) && r1 == 1
+
+func verifRoundTripByte
+  modifies cells(int64)
+  ensures r2 == nil && r0 == v && r1 == 1
+
+func verifRoundTripBytes
+  modifies cells([]byte)
+  ensures r2 == nil && len(r0) == len(v) && r1 == len(v)
+  ensures forall i Int :: 0 <= i && i < len(v) ==> r0[i] == v[i]
+
+func verifRoundTripPair
+  modifies cells(int64), cells(float64), cells(bool)
+  ensures r4 == nil && r0 == x && (r1 <==> y) && r2 == z && r3 == 7
+
+-- whenever the writer accepts the slice (length within the bounds and fitting the prefix width), the
+-- reader returns it; the writer's error is the only error
+func verifRoundTripVarBytes
+  requires lenType == SeriLengthPrefixTypeAsByte || lenType == SeriLengthPrefixTypeAsUint16 || lenType == SeriLengthPrefixTypeAsUint32
+  modifies cells([]byte)
+  ensures !(maxLen > 0 && len(v) > maxLen) && !(minLen > 0 && len(v) < minLen) && len(v) <= (lenType == SeriLengthPrefixTypeAsByte ? 255 : (lenType == SeriLengthPrefixTypeAsUint16 ? 65535 : 4294967295)) ==> r2 == nil && len(r0) == len(v) && r1 == len(v) + (lenType == SeriLengthPrefixTypeAsByte ? 1 : (lenType == SeriLengthPrefixTypeAsUint16 ? 2 : 4))
+  ensures !(maxLen > 0 && len(v) > maxLen) && !(minLen > 0 && len(v) < minLen) && len(v) <= (lenType == SeriLengthPrefixTypeAsByte ? 255 : (lenType == SeriLengthPrefixTypeAsUint16 ? 65535 : 4294967295)) ==> forall i Int :: 0 <= i && i < len(v) ==> r0[i] == v[i]
+  -- and otherwise the writer's error is reported
+  ensures !(!(maxLen > 0 && len(v) > maxLen) && !(minLen > 0 && len(v) < minLen) && len(v) <= (lenType == SeriLengthPrefixTypeAsByte ? 255 : (lenType == SeriLengthPrefixTypeAsUint16 ? 65535 : 4294967295))) ==> r2 != nil
+
+func verifRoundTripPayloadLength
+  ensures r2 == nil && r0 == l && r1 == 4
+@*/
